@@ -199,3 +199,12 @@ claim("C09", "exploration", "TLC-generated kernel cases rendered in both surface
       "(the Chinese runtime's 真/假 for true/false is normalised) and a program that compiles in one syntax must compile in the other.",
       "Role G: level exploration. Control-flow keywords are only exercised by C29's .wz renderings. Observation: the .wz names 微整型/短整型 (i8/i16) have no .wa counterpart and make the backend exit with 'Unknown type'.",
       "DESIGN.md section 4 (language kernel)")
+
+claim("C20", "model_checking", "TLA+ one-step semantics of RV64I+M from the ISA manual (Rv.tla on BV, evaluated by TLC) + one StepRun of the real emulator per case",
+      "Rv.tla defines, on 64-bit bit-vectors, what each RV64I and M instruction writes to rd, the next pc, and the bytes stored: 28 register-register operations (incl. the W forms, "
+      "mulh*, div/rem with the divide-by-zero and overflow results), 7 immediate operations, 6 immediate shifts, lui/auipc, 6 branches, jal/jalr (bit 0 cleared), 7 loads with "
+      "sign/zero extension and 4 stores. TLC evaluates 12k (instruction, operand tuple) cases over 18 boundary register values; the harness encodes each from the manual's format "
+      "tables (not the repository's encoder), runs one StepRun on the riscv64 CPU with DRAM, in up to three register allocations (rd=x10, rd=rs1, rd=x0 read after a nop).",
+      "Trusted: TLC, BV.tla, the harness's encoder. riscv64 integer subset only: riscv32, LoongArch, floating point and CSR instructions are not decided. Nine open known findings "
+      "(the emulator has many defects; each is keyed by instruction, register allocation and failure kind).",
+      "DESIGN.md section 4 C20")
